@@ -838,6 +838,11 @@ static int32_t pstm_sqr_comba16(const pstm_int *A, pstm_int *B)
     COMBA_STORE2(b[31]);
     COMBA_FINI;
 
+    /* clear digits of the old value of B above the result */
+    for (c0 = 32; c0 < B->used; c0++)
+    {
+        B->dp[c0] = 0;
+    }
     B->used = 32;
     B->sign = PSTM_ZPOS;
     Memcpy(B->dp, b, 32 * sizeof(pstm_digit));
@@ -1186,6 +1191,11 @@ static int32_t pstm_sqr_comba32(const pstm_int *A, pstm_int *B)
     COMBA_STORE2(b[63]);
     COMBA_FINI;
 
+    /* clear digits of the old value of B above the result */
+    for (c0 = 64; c0 < B->used; c0++)
+    {
+        B->dp[c0] = 0;
+    }
     B->used = 64;
     B->sign = PSTM_ZPOS;
     Memcpy(B->dp, b, 64 * sizeof(pstm_digit));
